@@ -47,6 +47,7 @@ def run(repo, chk, tier):
     typestate(chk, add, consts, upd)
     register_update(chk, upd, consts)
     estimator(chk, ln, consts)
+    maintained_zero_count(chk, m, ln)
 
 
 # -- 1 / 5 constants ---------------------------------------------------------
@@ -432,7 +433,10 @@ def register_update(chk, upd, consts):
         par_u = parents(upd.node)
         g = par_u.get(st)
         rho_t, cell_forms = E(rho), (E('self.M[x & (self.m - 1)]'), E('self.M[x % self.m]'))
-        if isinstance(g, ast.If) and not g.orelse and [b for b in g.body if not isinstance(b, ast.Pass)] == [st] and val == rho_t:
+        writes_M = lambda b: any(isinstance(x, (ast.Assign, ast.AugAssign)) and any(isinstance(t_, ast.Subscript) and ast.unparse(t_.value) == 'self.M' for t_ in (x.targets if isinstance(x, ast.Assign) else [x.target]))
+                                 or (isinstance(x, ast.Assign) and any(ast.unparse(t_) == 'self.M' for t_ in x.targets)) for x in ast.walk(b))
+        # other statements under the guard (book-keeping of other attributes) are not part of the register update
+        if isinstance(g, ast.If) and not g.orelse and any(b is st for b in g.body) and not any(writes_M(b) for b in g.body if b is not st) and val == rho_t:
             gt = term_of(upd, g.test, bound)
             val_ok = any(gt in (('cmp', '<', cell, rho_t), ('cmp', '<=', cell, rho_t)) for cell in cell_forms)
     chk.expect(val_ok, 'C14.3d', 'R15', upd.site(st), ast.unparse(st.value), 'register := max(register, width - bit_length(x >> p)): monotone, order independent',
@@ -550,6 +554,105 @@ def estimator(chk, ln, consts):
     if not problems:
         chk.expect(seen_exact and seen_lc, 'C14.4a', 'R15', ln.site(), 'if self.hll_flag: <linear counting> else: len(self.warmup_set)',
                    'exact size while not converted, estimator afterwards', '__len__ must return len(warmup_set) exactly when hll_flag is False and the linear-counting estimate otherwise', soft=True)
+
+
+def maintained_zero_count(chk, m, ln):
+    """C14.4c - when __len__ reads a maintained counter instead of counting the empty registers, the counter must be decremented exactly when a register
+    leaves 0.  Every `self.<counter> -= 1` of the class must sit under a test that the OLD value of the register is 0 (directly, or through the boolean a
+    helper method returns); a decrement on every raise of a register counts collisions twice and the estimate drifts upwards."""
+    try:
+        from ..baseline import ATTRS
+        known = set(ATTRS.get(MOD, {}).get(CLS, ()))
+    except ImportError:
+        known = set()
+    if not known:
+        return
+    counters = sorted({x.attr for x in own_nodes(ln.node) if _is_self_attr(x) and isinstance(x.ctx, ast.Load) and x.attr not in known and not (isinstance(parents(ln.node).get(x), ast.Call) and parents(ln.node).get(x).func is x)})
+    methods = {q.split('.', 1)[1]: f for q, f in m.funcs.items() if q.startswith(CLS + '.') and q.count('.') == 1}
+    counters = [c for c in counters if c not in methods]
+    if not counters:
+        return
+
+    def reg_reads(f):
+        """locals bound to self.M[...] (the old value of a register)"""
+        return {n.targets[0].id for n in own_nodes(f.node) if isinstance(n, ast.Assign) and len(n.targets) == 1 and isinstance(n.targets[0], ast.Name) and isinstance(n.value, ast.Subscript) and _is_self_attr(n.value.value, 'M')}
+
+    def is_zero_test(f, t):
+        olds = reg_reads(f)
+        is_old = lambda e: (isinstance(e, ast.Name) and e.id in olds) or (isinstance(e, ast.Subscript) and _is_self_attr(e.value, 'M'))
+        for x in ast.walk(t):
+            if isinstance(x, ast.Compare) and len(x.ops) == 1:
+                l, r = x.left, x.comparators[0]
+                zero = lambda e: isinstance(e, ast.Constant) and e.value == 0 and not isinstance(e.value, bool)
+                one = lambda e: isinstance(e, ast.Constant) and e.value == 1 and not isinstance(e.value, bool)
+                if isinstance(x.ops[0], ast.Eq) and ((is_old(l) and zero(r)) or (zero(l) and is_old(r))):
+                    return True
+                if isinstance(x.ops[0], ast.Lt) and is_old(l) and one(r):
+                    return True
+                if isinstance(x.ops[0], ast.LtE) and is_old(l) and zero(r):
+                    return True
+            if isinstance(x, ast.UnaryOp) and isinstance(x.op, ast.Not) and is_old(x.operand):
+                return True
+        return False
+
+    def guards(f, node):
+        par = parents(f.node)
+        out, cur, child = [], par.get(node), node
+        while cur is not None and cur is not f.node:
+            if isinstance(cur, ast.If) and any(child is b for b in cur.body):
+                out.append(cur.test)
+            child, cur = cur, par.get(cur)
+        return out
+
+    def helper_true_only_from_zero(h):
+        """every `return <truthy>` of the helper sits under a zero test of the old register (or returns the zero test itself)"""
+        verdict = True
+        for r in returns(h):
+            v = r.value
+            if v is None or (isinstance(v, ast.Constant) and not v.value):
+                continue
+            if is_zero_test(h, v):
+                continue
+            if isinstance(v, ast.Constant) and v.value is True:
+                if any(is_zero_test(h, t) for t in guards(h, r)):
+                    continue
+                return False
+            verdict = None
+        return verdict
+
+    for c in counters:
+        decs = [(f, n) for f in methods.values() for n in own_nodes(f.node) if isinstance(n, ast.AugAssign) and _is_self_attr(n.target, c)]
+        if not decs:
+            chk.unsure('C14.4c', 'R13', ln.site(), f'self.{c}', f'__len__ reads self.{c} instead of counting the empty registers, and no method keeps it up to date by `-= 1`: that it equals the number of empty registers is not decided')
+            continue
+        verdicts = []
+        for f, n in decs:
+            if not (isinstance(n.op, ast.Sub) and isinstance(n.value, ast.Constant) and n.value.value == 1):
+                verdicts.append((None, f, n))
+                continue
+            gs = guards(f, n)
+            if any(is_zero_test(f, t) for t in gs):
+                verdicts.append((True, f, n))
+                continue
+            via = [methods[x.func.attr] for t in gs for x in ast.walk(t) if isinstance(x, ast.Call) and _is_self_attr(x.func) and x.func.attr in methods]
+            if via:
+                hv = [helper_true_only_from_zero(h) for h in via]
+                verdicts.append((False if any(v is False for v in hv) else (True if all(v is True for v in hv) else None), f, n))
+                continue
+            raises = any(isinstance(x, ast.Compare) and len(x.ops) == 1 and isinstance(x.ops[0], (ast.Gt, ast.Lt, ast.GtE, ast.LtE)) for t in gs for x in ast.walk(t)) or \
+                     any(isinstance(b, ast.Assign) and isinstance(b.targets[0], ast.Subscript) and _is_self_attr(b.targets[0].value, 'M') for b in own_nodes(f.node))
+            verdicts.append((False if raises else None, f, n))
+        for v, f, n in verdicts:
+            if v is False:
+                chk.bad('C14.4c', 'R13', f.site(n), ast.unparse(n), f'self.{c} (read by __len__ as the number of empty registers) is decremented without a test that the register was empty before the write: '
+                        'every later raise of an already non-empty register (a collision) is counted again, the count falls below the true number of empty registers and the estimate drifts upwards')
+                break
+        else:
+            if all(v is True for v, _, _ in verdicts):
+                chk.ok('C14.4c', 'R13', decs[0][0].site(decs[0][1]), f'{len(decs)} decrement(s) of self.{c}', 'the maintained count of empty registers is decremented exactly when a register leaves 0')
+            else:
+                f, n = next((f, n) for v, f, n in verdicts if v is None)
+                chk.unsure('C14.4c', 'R13', f.site(n), ast.unparse(n), f'self.{c} is read by __len__ as the number of empty registers; that this update keeps it equal to that number is not decided')
 
 
 def _only_wrappers(t, cores):
